@@ -138,12 +138,25 @@ def run_unit(unit, tier):
     res = Result()
     specs = all_specs(tier)
     depth = 2 if tier == "quick" else 3
+    from mc.fresh import run_fresh
+
+    def one_spec(kind, spec):
+        # all re-parse histories of ONE spec, in a process in which nothing else has been parsed before: the first
+        # parse of the deepest history is then really the first time the parser sees this spec
+        r = Result()
+        n = len(ENTRY[kind])
+        for d in range(depth, 0, -1):
+            for hist in itertools.product(range(n), repeat=d):
+                check_history(r, kind, spec, list(hist))
+        return r.counts, r.states, r.outcomes, r.violations, r.notes
+
     for i in range(unit[0], unit[1]):
         kind, spec = specs[i]
-        n = len(ENTRY[kind])
-        for d in range(1, depth + 1):
-            for hist in itertools.product(range(n), repeat=d):
-                check_history(res, kind, spec, list(hist))
+        r = Result()
+        r.counts, r.states, r.outcomes, r.violations, r.notes = run_fresh(one_spec, kind, spec)
+        for v in r.violations.values():
+            v["case"]["pristine"] = True
+        res.merge(r)
     kind, spec = specs[unit[0]]
     res.sample({"kind": kind, "spec": spec, "history": [0, len(ENTRY[kind]) - 1]})
     return res
